@@ -638,8 +638,9 @@ func (m *Mon) CheckAccounting(concurrency int, exemptFetch map[int]bool) []strin
 }
 
 // CheckCallbacks checks the callback trace against the C04 statement.
-// Only meaningful for calls that returned nil.
-func (m *Mon) CheckCallbacks() []string {
+// Only meaningful for calls that returned nil. presentBefore lists the nodes
+// that were in the destination before the call.
+func (m *Mon) CheckCallbacks(presentBefore map[int]bool) []string {
 	m.mu.Lock()
 	defer m.mu.Unlock()
 	var out []string
@@ -670,6 +671,11 @@ func (m *Mon) CheckCallbacks() []string {
 		case "mounted":
 			s.mounted = append(s.mounted, e.Seq)
 		case "push-done", "pushref-done":
+			if e.Kind == "pushref-done" && presentBefore[e.Node] {
+				// a root found present is tagged by pushing it again with the
+				// reference: tagging, not a transfer
+				continue
+			}
 			s.pushed = true
 			s.pushDone = e.Seq
 		}
